@@ -81,6 +81,8 @@ def fs_differential(ctx, data):
     if cached is None:
         terms, idx = [], []
         for i, d in enumerate(data):
+            if d["h"].get("_nomodel"):
+                continue
             t = hist.emit_case(d["h"], d["res"], hist.identity_of(d["res"]))
             if t:
                 terms.append(t)
@@ -184,7 +186,7 @@ def check_C12(ctx):
 
 def check_C13(ctx):
     import oracles
-    fs_property(ctx, "C13", "C13", ["C13_limit"], oracles.c13)
+    fs_property(ctx, "C13", "C13", ["C13_limit", "C13_tree_all_histories", "C13_listing_all_histories", "C13_walk_all_histories"], oracles.c13)
 
 
 def check_C06(ctx):
@@ -222,7 +224,7 @@ def check_C06(ctx):
 def check_C07(ctx):
     import replay, collections
     ctx.trusted += M1_TRUST
-    coq_props(ctx, "C07", ["C07_demo", "C07_demo_idempotent"])
+    coq_props(ctx, "C07", ["C07_replay_converges", "C07_replay_idempotent", "C07_rebuild_succeeds", "C07_forged_record_refuted", "C07_demo", "C07_demo_idempotent"])
     data = replay.replay_stream(ctx)
     tie = replay.c07_tie(ctx, data)
     ctx.oblige("correspondence: Model/Replay.v evaluates in Coq on the observed replays", tie["ok"], tie["log"])
